@@ -170,6 +170,36 @@ Theorem C06_source_poll_is_model : forall iter (interval : nat -> option Q) max 
 Proof. exact gen_sleep_looper_is_model. Qed.
 Print Assumptions C06_source_poll_is_model.
 
+(** [RetryDecorator.retry_loop] READ FROM THE SOURCE: retryCounter starts at 0; sleep, back-off name
+    (default from config), sleepMax (as float), jrc, backoffArgs are formatted in that order, each
+    once, before the first attempt; the back-off callable is built from them; only then is max read
+    (as int; absent / falsy = unbounded); the attempts are polled with that callable and max; a
+    poll that ends false is an AssertionError.  It is the model's [retry_loop]. *)
+Theorem C06_source_retry_loop_is_model : forall (rg : RG) (rp : RP) rc sp k s,
+  gen_retry_loop rc
+    (fun s0 bname sleep mx jrcv args => mk_interval (jit s0) bname sleep mx jrcv args)
+    (fun interval max_attempts max s0 =>
+       poll LOOPFUEL (retry_iter rg rp rc sp k max) interval max_attempts 0 s0) s
+  = retry_loop rg rp rc sp k s.
+Proof. exact gen_retry_loop_is_model. Qed.
+Print Assumptions C06_source_retry_loop_is_model.
+
+(** ... and the three generated layers composed — retry_loop polling exec_iteration through
+    while_until_true's sleep_looper, all as read from the source — are the model's [retry_loop]:
+    what is left to the hand-written side is the back-off formulas (tied above), the step
+    invocation ([invoke], tied in C03) and formatting (C08). *)
+Theorem C06_source_retry_stack_is_model : forall (rg : RG) (rp : RP) rc sp k s,
+  gen_retry_loop rc
+    (fun s0 bname sleep mx jrcv args => mk_interval (jit s0) bname sleep mx jrcv args)
+    (fun interval max_attempts max s0 =>
+       gen_sleep_looper
+         (fun n => gen_retry_exec_iteration rc
+                     (fun c => invoke rg rp sp (mkcnt (k_while k) (k_for k) (Some c))) n max)
+         true (fun i => interval (Z.to_nat i)) None max_attempts LOOPFUEL s0) s
+  = retry_loop rg rp rc sp k s.
+Proof. exact gen_retry_stack_is_model. Qed.
+Print Assumptions C06_source_retry_stack_is_model.
+
 (** * Non-vacuity: fails while retryCounter < 3, linear back-off 1/2 capped at 3/4 *)
 Definition lib6 : library :=
   [("main", [("steps", Some [
